@@ -19,6 +19,8 @@ import IrVerif.Lemmas.SemPerm
 import IrVerif.Lemmas.InlineFuncs
 import IrVerif.Lemmas.SemValid3
 import IrVerif.Lemmas.InlineCoh
+import IrVerif.Lemmas.InlineDepth
+import IrVerif.Lemmas.AddDefaults
 namespace IrVerif.Passes
 open IrVerif.Sem
 variable {Val : Type}
@@ -1101,6 +1103,14 @@ example : (validF ⟨.mk [0] [2] [] [.mk ⟨"l", "G", ""⟩ [] [some 0] [2, 3] [
     [⟨⟨"l", "G", ""⟩, [], [20, 22], [21, 22], [.mk ⟨"", "Neg", ""⟩ [] [some 20] [21] []], []⟩], []⟩).st.raised) = true := by
   decide
 
+/-- ... also for the second cause (wave 5): the call uses one of the two outputs of G; the model is valid (`callOK`
+    admits fewer outputs), the real pass raises ValueError in `replace_all_uses_with`, the run of the model is `raised` -/
+example : (validF ⟨.mk [0] [2] [] [.mk ⟨"l", "G", ""⟩ [] [some 0] [2] []],
+    [⟨⟨"l", "G", ""⟩, [], [20], [21, 22], [.mk ⟨"", "Neg", ""⟩ [] [some 20] [21] [], .mk ⟨"", "Abs", ""⟩ [] [some 20] [22] []], []⟩], []⟩ &&
+    (inlineRun (fun _ => true) ⟨.mk [0] [2] [] [.mk ⟨"l", "G", ""⟩ [] [some 0] [2] []],
+    [⟨⟨"l", "G", ""⟩, [], [20], [21, 22], [.mk ⟨"", "Neg", ""⟩ [] [some 20] [21] [], .mk ⟨"", "Abs", ""⟩ [] [some 20] [22] []], []⟩], []⟩).st.raised) = true := by
+  decide
+
 /-- non-vacuity of `C05_inline`: the criterion keeps F and accepts G; F (kept) calls G, the main graph calls F and G.
     The run has a result (`runOK`), G is inlined into the main graph and into the body of F and deleted, the call to
     F stays -/
@@ -1140,6 +1150,68 @@ example : (inlineModel (fun _ => true) ⟨.mk [0] [2, 3] [] [.mk ⟨"l", "F", ""
     [⟨⟨"l", "F", ""⟩, [], [10], [11, 12], [.mk ⟨"l", "G", ""⟩ [] [some 10] [11, 12] []], []⟩,
      ⟨⟨"l", "G", ""⟩, [], [20], [21, 20], [.mk ⟨"", "Neg", ""⟩ [] [some 20] [21] []], []⟩], []⟩).graph.nodes.map (·.op.name)
     = ["Neg", "Identity"] := by decide
+
+
+/-- at every depth from the number of functions on a model whose call trees are that shallow denotes what it
+    denotes at its canonical depth (`C05_call_depth` without the other conjuncts of `validF`) -/
+theorem denoteAt_of_depthOK (m : FModel) (hl : depthOK m.funcs.length m.funcs = true) {Val : Type} (I : Interp Val)
+    (d : Nat) (hd : m.funcs.length ≤ d) (xs : List Val) : denoteAt d I m xs = denoteF I m xs := by
+  simp only [depthOK, List.all_eq_true] at hl
+  simp only [denoteF, denoteAt]
+  have hall : ∀ (g : FGraph), opsAllG (lvl m.funcs m.funcs.length) g = true := by
+    intro g
+    refine opsAllG_mono (p := fun _ => true) (fun op _ => ?_) g ?_
+    · cases hf : findFunc m.funcs op with
+      | none => exact lvl_mono_le m.funcs (Nat.zero_le _) op (by simp [lvl, hf])
+      | some f => obtain ⟨hm, hid⟩ := findFunc_some hf; exact hid ▸ hl f hm
+    · exact opsAllG_true g
+  exact congrFun (evalGF_congrΦ I _ _ (lvl m.funcs m.funcs.length)
+    (fun op hop => fenv_stable I m.funcs _ op hop d hd) [] m.graph Env.empty (hall m.graph)) xs
+
+/-- **C05_inline_canonical** — `C05_inline` at the canonical depth of BOTH models: the call trees of the functions that
+    InlinePass leaves are not deeper than the number of functions that are left (they are not deeper than the number of
+    functions before, `C05_inline_total`; a call tree over `n` functions without recursion has depth at most `n`,
+    `lvl_le_length`: a chain of calls of strictly decreasing depth consists of distinct functions), the result has
+    at most as many functions as the model, so `denoteF` of the result - unrolling to ITS number of functions - is
+    its denotation at the depth of the model before, and that is `denoteF` of the model before. -/
+theorem C05_inline_canonical (crit : OpId → Bool) (m : FModel) (hv : validF m = true) :
+    depthOK (inlineModel crit m).funcs.length (inlineModel crit m).funcs = true ∧
+    (inlineModel crit m).funcs.length ≤ m.funcs.length ∧
+    ∀ (Val : Type) (I : Interp Val) (xs : List Val), denoteF I (inlineModel crit m) xs = denoteF I m xs := by
+  have hv' := hv
+  simp only [validF, Bool.and_eq_true, List.all_eq_true, decide_eq_true_eq, Option.isNone_iff_eq_none] at hv'
+  obtain ⟨⟨⟨⟨⟨⟨_, _⟩, _⟩, hl⟩, _⟩, _⟩, _⟩ := hv'
+  have hdepth0 : depthOK m.funcs.length m.funcs = true := by
+    simp only [depthOK, List.all_eq_true]; exact hl
+  by_cases hfall : runOK crit m = true
+  · have hm : inlineModel crit m = (inlineRun crit m).model := by unfold inlineModel; rw [if_pos hfall]
+    have hfall' := hfall
+    simp only [runOK, Bool.and_eq_true] at hfall'
+    have hdepth := hfall'.2
+    simp only [hdepth0, Bool.not_true, Bool.false_or] at hdepth
+    have hcan := depthOK_canonical _ _ hdepth
+    have hlen : (inlineRun crit m).model.funcs.length ≤ m.funcs.length := by
+      have hids : (inlineRun crit m).tbl.map (·.id) = m.funcs.map (·.id) := by
+        simp only [inlineRun]; exact inlFuncs_ids _ _ _ _ _
+      have h1 : (inlineRun crit m).model.funcs.length ≤ (inlineRun crit m).tbl.length := by
+        simp only [inlineRun]; exact List.length_filter_le _ _
+      have h2 : (inlineRun crit m).tbl.length = m.funcs.length := by
+        have := congrArg List.length hids
+        simpa using this
+      omega
+    rw [hm]
+    refine ⟨hcan, hlen, fun Val I xs => ?_⟩
+    rw [← denoteAt_of_depthOK _ hcan I m.funcs.length hlen xs, ← hm]
+    exact (C05_inline crit m hv).1 Val I m.funcs.length (Nat.le_refl _) xs
+  · have hm : inlineModel crit m = m := by unfold inlineModel; rw [if_neg hfall]
+    rw [hm]
+    exact ⟨hdepth0, Nat.le_refl _, fun _ _ _ => rfl⟩
+
+/-- non-vacuity of `C05_inline_canonical`: the model before has two functions (canonical depth 2), the result has one
+    (canonical depth 1): the two `denoteF` unroll to different depths -/
+example : (inlineModel (fun op => op.name == "G") ⟨.mk [0] [2] [] [.mk ⟨"l", "F", ""⟩ [] [some 0] [1] [], .mk ⟨"l", "G", ""⟩ [] [some 1] [2] []],
+    [⟨⟨"l", "F", ""⟩, [], [10], [11], [.mk ⟨"l", "G", ""⟩ [] [some 10] [11] []], []⟩,
+     ⟨⟨"l", "G", ""⟩, [], [20], [21], [.mk ⟨"", "Neg", ""⟩ [] [some 20] [21] []], []⟩], []⟩).funcs.length = 1 := by decide
 
 
 /-- a function reachable from the main graph or from a reachable function -/
@@ -1283,5 +1355,80 @@ theorem C05_coherent_lift (m : Model) (h : identOKG (liftG m.graph) = true) {Val
 /-- non-vacuity of `C05_coherent`: a model with a function that the main graph does not call -/
 example : pureMain ⟨.mk [0] [1] [] [.mk ⟨"", "Identity", ""⟩ [] [some 0] [1] []],
     [⟨⟨"l", "G", ""⟩, [], [20], [21], [.mk ⟨"", "Neg", ""⟩ [] [some 20] [21] []], []⟩], []⟩ = true := by decide
+
+/-! ## AddDefaultAttributesPass (Model/AddDefaults.lean) -/
+
+/-- **C05_add_defaults** — AddDefaultAttributesPass, with ONNX's schema tables as a parameter `T` (domain, operator
+    type, opset version ↦ attribute declarations with `required` flag and default), the versions of the main graph's
+    opset imports and the per-node versions (`ir.Node.version`): the pass adds to every node - of the main graph, of
+    subgraphs at any depth and of every function body - the defaults of the schema it looks up for the node
+    (`node.version`, else the MAIN graph's import of the node's domain, else nothing) that are not required, have a
+    valid default and are absent from the node.
+    ASSUMPTION `DefaultRespecting I T imports nver m`: the operator interpretation is default-respecting for that
+    table on this model - at every node that is not a call of a model-local function, for every default `(k, d)` the
+    looked-up schema declares, `I` gives the same results with and without `(k, d)` whenever `k` is absent
+    (`RespectsDefault`; ONNX: an absent optional attribute means its default) - and a node that calls a
+    model-local function gets no new attribute (decidable: `callsUntouched`, evaluated on every generated case).
+    Then for every unrolling depth and every input the model after the pass denotes the same outputs (also at its
+    canonical depth, `denoteF`), and the main graph keeps its inputs, outputs and initializers and the model its
+    functions' identifiers, signatures and opset domains.  No validity assumption.
+    `respectsDefault_of_sem` derives `RespectsDefault` from the same statement about `I.sem` for every operator
+    other than Constant.  The ReferenceEvaluator oracle of the harness checks the instances of the assumption
+    (outputs before = outputs after on the generated models); the table handed to the driver is dumped from
+    `onnx.defs` for every operator, domain and version that occurs in the generated case. -/
+theorem C05_add_defaults (T : SchemaTable) (imports : List (String × Nat)) (nver : FNode → Option Nat) (m : FModel)
+    {Val : Type} (I : Interp Val) (hI : DefaultRespecting I T imports nver m) :
+    (∀ (d : Nat) (xs : List Val), denoteAt d I (addDefaultsModel T imports nver m) xs = denoteAt d I m xs) ∧
+    (∀ xs : List Val, denoteF I (addDefaultsModel T imports nver m) xs = denoteF I m xs) ∧
+    (addDefaultsModel T imports nver m).graph.outputs = m.graph.outputs ∧
+    (addDefaultsModel T imports nver m).graph.inputs = m.graph.inputs ∧
+    (addDefaultsModel T imports nver m).graph.inits = m.graph.inits ∧
+    (addDefaultsModel T imports nver m).funcs.map (fun f => (f.id, f.params, f.inputs, f.outputs, f.domains)) =
+      m.funcs.map (fun f => (f.id, f.params, f.inputs, f.outputs, f.domains)) := by
+  obtain ⟨hg, hf⟩ := hI
+  have hat : ∀ (d : Nat) (xs : List Val), denoteAt d I (addDefaultsModel T imports nver m) xs = denoteAt d I m xs := by
+    intro d xs
+    simp only [denoteAt, addDefaultsModel]
+    rw [fenv_addDef I m.funcs _ hf d,
+      evalGF_addDef I (fenv I m.funcs d) m.funcs _ (fenv_isSome I m.funcs d) [] m.graph Env.empty hg]
+  refine ⟨hat, fun xs => ?_, ?_, ?_, ?_, ?_⟩
+  · have := hat m.funcs.length xs
+    simpa only [denoteF, addDefaultsModel, List.length_map] using this
+  · cases hgr : m.graph with
+    | mk i o t n => simp [addDefaultsModel, hgr, addDefG, FGraph.outputs]
+  · cases hgr : m.graph with
+    | mk i o t n => simp [addDefaultsModel, hgr, addDefG, FGraph.inputs]
+  · cases hgr : m.graph with
+    | mk i o t n => simp [addDefaultsModel, hgr, addDefG, FGraph.inits]
+  · simp [addDefaultsModel, addDefFunc, List.map_map, Function.comp_def]
+
+/-- non-vacuity: the table declares `alpha` (default 0.5... as bits) for Selu at version 18 and a required attribute;
+    the node has no `alpha`: the pass adds it, to the node in the main graph and to the one in the function body -/
+example : ((addDefaultsModel (fun d t v => if d == "" && t == "Selu" && v == 18 then
+      some [⟨"alpha", false, some (.float 1056964608)⟩, ⟨"gamma", true, some (.float 0)⟩, ⟨"beta", false, none⟩] else none)
+    [("", 18)] (fun _ => none)
+    ⟨.mk [0] [2] [] [.mk ⟨"", "Selu", ""⟩ [] [some 0] [1] [], .mk ⟨"l", "F", ""⟩ [] [some 1] [2] []],
+     [⟨⟨"l", "F", ""⟩, [], [10], [11], [.mk ⟨"", "Selu", ""⟩ [("alpha", .ref "a")] [some 10] [11] []], []⟩], []⟩).graph.nodes.map
+      (fun n => n.attrs.map Prod.fst)) = [["alpha"], []] := by decide
+
+/-- the assumption is satisfiable by an interpretation that looks at attributes: `sem` reads the attribute list after
+    filling in the default, so it cannot tell an absent `alpha` from the default one -/
+example : RespectsDefault (Val := Nat)
+    ⟨fun _ attrs _ _ _ => [match (attrs ++ [("alpha", AttrData.float 5)]).lookup "alpha" with
+      | some (.float b) => b | _ => 0], fun _ => 0⟩ ⟨"", "Selu", ""⟩ "alpha" (.float 5) := by
+  refine respectsDefault_of_sem _ _ _ _ (by decide) (fun attrs bodies args t hk => ?_)
+  have hnone : attrs.lookup "alpha" = none := by
+    rw [List.lookup_eq_none_iff]
+    intro p hp
+    simp only [bne_iff_ne, ne_eq]
+    intro hpe
+    exact hk (List.mem_map.2 ⟨p, hp, hpe.symm⟩)
+  simp [List.lookup_append, hnone]
+
+/-- ... and it is a real restriction: an interpretation that counts attributes does not respect any default -/
+example : ¬ RespectsDefault (Val := Nat) ⟨fun _ attrs _ _ _ => [attrs.length], fun _ => 0⟩ ⟨"", "Selu", ""⟩ "alpha" (.float 5) := by
+  intro h
+  have := h [] [1] [] [] (by simp)
+  simp [nodeResultsF, nodeResults, isIdentityOp, constOf, isConstantOp, isStochasticOp] at this
 
 end IrVerif.Inline
